@@ -331,7 +331,7 @@ def exact_prod(vals, k):
     return all(representable(Fraction(v) * k) for v in vals)
 
 
-def metamorphic(ctx, p, d, real, case, rng, trans=None, ks=()):
+def metamorphic(ctx, p, d, real, case, trans=None, ks=()):
     rc = range_class(p, d)
     if rc != "in":
         return
@@ -461,8 +461,12 @@ def gen_exact(rng):
     p = [o[0] * u, o[1] * u, o[2] * u, d1 * u2]
     d = [(o[0] + delta[0]) * u, (o[1] + delta[1]) * u, (o[2] + delta[2]) * u, d2 * u2]
     if kind >= 0.93 and rng.random() < 0.5:
-        return {"kind": "seg", "p": None, "d": hx(d), "grid": e}
-    return {"kind": "seg", "p": hx(p), "d": hx(d), "grid": e}
+        return {"kind": "seg", "p": None, "d": hx(d)}
+    return {"kind": "seg", "p": hx(p), "d": hx(d), "ks": [pow2(rng)]}
+
+
+def pow2(rng):
+    return math.ldexp(1.0, rng.randint(-20, 20))
 
 
 def mant(rng):
@@ -488,7 +492,7 @@ def gen_general(rng, lo=-90, hi=90):
         d1 = 0.0
     if rng.random() < 0.04:
         d2 = 0.0
-    return {"kind": "seg", "p": hx(p + [d1]), "d": hx(d + [d2])}
+    return {"kind": "seg", "p": hx(p + [d1]), "d": hx(d + [d2]), "ks": [pow2(rng)]}
 
 
 def gen_grid(rng):
@@ -505,7 +509,7 @@ def gen_grid(rng):
         d2 = d1
     t = [rng.randint(-2 ** 40, 2 ** 40) * u for _ in range(3)]
     return {"kind": "seg", "p": hx([x * u for x in p] + [d1 * u2]), "d": hx([x * u for x in d] + [d2 * u2]),
-            "trans": hx(t), "ks": [3.0, 5.0, 7.0, 10.0][rng.randrange(4):][:2]}
+            "trans": hx(t), "ks": [pow2(rng)] + [3.0, 5.0, 7.0, 10.0][rng.randrange(4):][:2]}
 
 
 def gen_extreme(rng):
@@ -558,7 +562,7 @@ H1 = (1.0).hex()
 
 
 def _seg(p, d, **kw):
-    return dict({"kind": "seg", "p": hx(p), "d": hx(d)}, **kw)
+    return dict({"kind": "seg", "p": hx(p), "d": hx(d), "ks": [0.125]}, **kw)
 
 
 CORPUS = [
@@ -626,14 +630,16 @@ def nontrivial_seg(p, d):
     return ndiff != 1 or p[3] != d[3]
 
 
-def run_cases(ctx, cases, stream):
+def run_cases(ctx, cases, stream, use_driver=True):
     lines = []
     for c in cases:
         a, b = decode(c)
         lines.append(seg_line(a, b) if c["kind"] == "seg" else cell_line(a, b))
-    rc, out = fw.run_driver("C12", ['{"op":"pi"}'] + lines)
-    ok_driver = rc == 0 and len(out) == len(lines) + 1
-    if not ok_driver:
+    rc, out = fw.run_driver("C12", ['{"op":"pi"}'] + lines) if use_driver else (0, [])
+    ok_driver = use_driver and rc == 0 and len(out) == len(lines) + 1
+    if not use_driver:
+        pass
+    elif not ok_driver:
         ctx.disagree("driver", "driver failed rc=%s (%d lines for %d)" % (rc, len(out), len(lines) + 1), "\n".join(out[-5:]), None)
     else:
         pim = json.loads(out[0])
@@ -662,8 +668,7 @@ def run_cases(ctx, cases, stream):
             spec = oracle_seg(ctx, p, d, real, c)
             ctx.count("branch:" + spec["branch"])
             ctx.count("range:" + range_class(p, d))
-            ks = [float(2 ** ctx.rng.randint(-20, 20))] + list(c.get("ks", []))
-            metamorphic(ctx, p, d, real, c, ctx.rng, trans=unhx(c.get("trans")), ks=ks)
+            metamorphic(ctx, p, d, real, c, trans=unhx(c.get("trans")), ks=list(c.get("ks", [])))
             ctx.sample({"p": p, "d": d, "real": {k: (real[k].get("ok", real[k].get("err", [""])[0])) for k, _ in QS}})
         else:
             segs, q = a, b
@@ -711,6 +716,9 @@ def regenerate(ctx):
 def replay(ctx, payload):
     case = payload["case"]
     case = {k: case[k] for k in case if k in ("kind", "p", "d", "segs", "q", "trans", "ks")}
-    run_cases(ctx, [case], "replay")
-    return {"fails": bool(ctx.failures or ctx.corr_disagreements), "failures": ctx.failures,
-            "disagreements": ctx.corr_disagreements}
+    # self-contained: retranslate the current tree and rebuild the Float model; without a model only the oracle runs
+    gaps = regenerate(ctx)
+    ok, _ = fw.lake_build(["NmlVerif.Model.Geom"])
+    run_cases(ctx, [case], "replay", use_driver=ok and not gaps)
+    return {"fails": bool(ctx.failures or ctx.corr_disagreements or gaps), "translator_gaps": gaps,
+            "model_built": ok, "failures": ctx.failures, "disagreements": ctx.corr_disagreements}
